@@ -479,6 +479,20 @@ def enum_cases(cls):
         "insert_without_into": (lambda: Q.from_(t), lambda q: q.insert(1)),
         "columns_without_into": (lambda: Q.from_(t), lambda q: q.columns("a")),
     }
+    # (g) a join that is given no condition at all is rejected at the call with the join exception (sources: table, subquery, aliased table)
+    for src in ("table", "aliased", "subquery"):
+        for how in ("on_none", "on_field_empty", "using_empty"):
+            def thunk(src=src, how=how):
+                item = {"table": lambda: u, "aliased": lambda: P.Table("u").as_("ua"), "subquery": lambda: Q.from_(u).select(u.a)}[src]()
+                j = Q.from_(t).join(item)
+                call = {"on_none": lambda: j.on(None), "on_field_empty": lambda: j.on_field(), "using_empty": lambda: j.using()}[how]
+                r = outcome(call)
+                if r[0] == "ok" or r[1] != "JoinException":
+                    return [(mksig("join_without_condition", "missed" if r[0] == "ok" else "wrong_type:" + r[1], how), "join(%s).%s gave %r" % (src, how, r[1] if r[0] == "raised" else _sql(r[1], cls)[:100]))]
+                return []
+
+            yield {"family": "join_without_condition", "cls": cls, "src": src, "how": how}, thunk
+
     for name, (first, second) in oneshots.items():
         def thunk(name=name, first=first, second=second):
             r1 = outcome(first)
